@@ -112,7 +112,7 @@ func valueSet(typ string, f *fxInfo) []pval {
 	case "jsonbool":
 		return []pval{absent, raw("true", "true"), raw("false", "false"), raw("string", `"true"`), raw("null", "null"), raw("number", "1"), raw("object", "{}")}
 	case "walletid":
-		return []pval{pv("plain", "plain.wlt"), absent, pv("empty", ""), pv("encrypted", "enc.wlt"), pv("bip44", "bip44.wlt"), pv("unknown", "nope.wlt"),
+		return []pval{pv("plain", "plain.wlt"), absent, pv("empty", ""), pv("encrypted", "enc.wlt"), pv("bip44", "bip44.wlt"), pv("xpub-watch-only", "xpub.wlt"), pv("unknown", "nope.wlt"),
 			pv("path-traversal", "../wallets/plain.wlt"), pv("long", strings.Repeat("w", 5000))}
 	case "password":
 		return []pval{absent, pv("right", fxPassword), pv("empty", ""), pv("wrong", "wrong"), pv("long", strings.Repeat("p", 5000))}
@@ -166,11 +166,20 @@ func valueSet(typ string, f *fxInfo) []pval {
 		if len(half)%2 == 1 {
 			half = half[:len(half)-1]
 		}
-		return []pval{pv("valid-new-spend", f.EncNewSpend), absent, pv("empty", ""), pv("pending", f.EncPending), pv("confirmed", f.EncConfirmed),
+		vals := []pval{pv("valid-new-spend", f.EncNewSpend), absent, pv("empty", ""), pv("pending", f.EncPending), pv("confirmed", f.EncConfirmed),
 			pv("unconfirmed-double-spend-of-spent-output", f.EncDouble), pv("unsigned", f.EncUnsigned), pv("no-inputs", f.EncNoInputs),
 			pv("truncated", half), pv("zz", "zz"), pv("odd-length-hex", "abc"), pv("trailing-bytes", f.EncNewSpend+"00"),
 			pv("length-prefix-only", "ffffffff"), pv("huge", strings.Repeat("00", 40000)),
 			raw("wrong-type-number", "123"), raw("null", "null"), raw("huge-integer", "123456789012345678901234567890"), raw("nested", nested(64))}
+		vnames := make([]string, 0, len(f.EncVariants))
+		for k := range f.EncVariants {
+			vnames = append(vnames, k)
+		}
+		sort.Strings(vnames)
+		for _, k := range vnames {
+			vals = append(vals, pv(k, f.EncVariants[k]))
+		}
+		return vals
 	case "signindexes":
 		return []pval{absent, raw("empty-list", "[]"), raw("[0]", "[0]"), raw("duplicate", "[0,0]"), raw("out-of-range", "[7]"), raw("negative", "[-1]"),
 			raw("huge-integer", "[99999999999999999999]"), raw("string", `"0"`), raw("null", "null"), raw("floats", "[0.5]"), raw("nested", "[[0]]")}
@@ -239,6 +248,7 @@ type c28Req struct {
 	Query   string            `json:"query,omitempty"`
 	Body    string            `json:"body,omitempty"`
 	CType   string            `json:"content_type,omitempty"`
+	Headers map[string]string `json:"headers,omitempty"`
 	Classes map[string]string `json:"classes"` // parameter -> class, for every parameter that is not at its base value
 	Mut     bool              `json:"state_changing,omitempty"`
 	Danger  bool              `json:"danger,omitempty"`
@@ -528,6 +538,46 @@ func c28Requests(g *apimodel.Golden, f *fxInfo, startID int) []c28Req {
 								emit(asg)
 							}
 						}
+					}
+				}
+			}
+		}
+	}
+	return out
+}
+
+// c28StaticRequests: the GUI's static files (index page, file server) — paths × Range / conditional headers × methods, each
+// also with a query (the logging middleware treats URIs containing "v2" differently).
+func c28StaticRequests(f *fxInfo, startID int) []c28Req {
+	var out []c28Req
+	id := startID
+	paths := []string{"/", "/index.html", "/assets/app.js", "/assets/", "/assets", "/main.v2.js", "/missing.html", "/assets/../index.html", "/static"}
+	ranges := []string{"", "bytes=0-9", "bytes=5-", "bytes=-5", "bytes=1000000-2000000", "bytes=9-0", "bytes=abc", "bytes=0-0,2-3", "lines=1-2"}
+	conds := []map[string]string{nil, {"If-Modified-Since": "Mon, 02 Jan 2096 15:04:05 GMT"}, {"If-None-Match": "*"}, {"If-Range": "\"etag\""}, {"If-Match": "\"nope\""}}
+	for _, method := range []string{"GET", "HEAD", "POST"} {
+		for _, p := range paths {
+			for _, q := range []string{"", "x=v2"} {
+				for _, rg := range ranges {
+					for ci, cd := range conds {
+						if rg != "" && ci > 0 && ci != 3 {
+							continue // conditional headers are combined with a range only where they interact (If-Range)
+						}
+						h := map[string]string{}
+						cls := map[string]string{}
+						if rg != "" {
+							h["Range"] = rg
+							cls["range"] = rg
+						}
+						for k, v := range cd {
+							h[k] = v
+							cls["conditional"] = k
+						}
+						if q != "" {
+							cls["query"] = q
+						}
+						cls["path"] = p
+						out = append(out, c28Req{ID: id, State: f.State, Method: method, Path: p, Query: q, Headers: h, Classes: cls, Single: len(cls) <= 2})
+						id++
 					}
 				}
 			}
